@@ -85,7 +85,9 @@ def init : St :=
 
 def upd {α} (f : Nat → α) (i : Nat) (a : α) : Nat → α := fun j => if j = i then a else f j
 
-def addG (f : Nat → Int) (g : Nat) (d : Int) : Nat → Int := upd f g (f g + d)
+/-- `@[inline]`: the new value is computed once, when the counter is updated (the compiled driver would otherwise
+re-evaluate `f g` on every later read) -/
+@[inline] def addG (f : Nat → Int) (g : Nat) (d : Int) : Nat → Int := upd f g (f g + d)
 
 inductive Out
   | none
